@@ -77,8 +77,8 @@ def guard {α} (c : Bool) (msg : String) (k : Except String α) : Except String 
 
 inductive APc
   | start                      -- call seen, no step yet
-  | cas (cur : UInt64)         -- float add: loaded `cur`, next is the compare-exchange to `cur + delta`
-  | retry (cur : UInt64)       -- float add: a compare-exchange failed and reported `cur`; the loop either loads again
+  | cas (cur : UInt64)         -- add as a loop (float; integer): loaded `cur`, next is the compare-exchange to `cur + delta`
+  | retry (cur : UInt64)       -- add as a loop: a compare-exchange failed and reported `cur`; the loop either loads again
                                -- (as from `start`) or retries at once with the reported value (as from `cas cur`)
 deriving Repr
 
@@ -128,9 +128,25 @@ def specApply (float : Bool) (v : UInt64) (op : String) : Option (UInt64 × Stri
   else if float then (floatDelta op).map fun d => (f64Add v d, "")
   else some (if isSubOp op then v - intDelta op else v + intDelta op, "")
 
+/-- the value the compare-exchange of the add / sub `op` installs when it expects `cur`: `cur + delta` in the
+    arithmetic of the flavour (IEEE addition of the float delta; wrapping `u64` addition resp. subtraction of the
+    integer operand). `none` = `op` is not an add of this flavour. -/
+def casNew (float : Bool) (op : String) (cur : UInt64) : Option UInt64 :=
+  if float then (floatDelta op).map fun d => f64Add cur d
+  else
+    let n := opName op
+    if n == "get" || n == "set" || n == "reset" then none
+    else some (if isSubOp op then cur - intDelta op else cur + intDelta op)
+
+/-- the ordering the successful compare-exchange of an add needs: the float loop publishes with Release (as the
+    library does), the integer loop replaces a Relaxed `fetch_add` / `fetch_sub` -/
+def casOrd (float : Bool) : String := if float then "Release" else "Relaxed"
+
 /-- the first step of the call `op` (program counter `start`): the new cell value and either the next
     program counter (`inl`) or the value the call returns (`inr`: the call is complete, it took
-    effect in this step) -/
+    effect in this step). A `set` / `reset` is one store, or one swap (whose result, the old value, the
+    caller ignores); an integer add / sub is one `fetch_add` / `fetch_sub`, or begins - with a load - the
+    same load + compare-exchange loop a float add is. -/
 def aEvStart (float : Bool) (mem : UInt64) (op : String) (e : Ev) : Except String (UInt64 × (APc ⊕ String)) :=
   let n := opName op
   if n == "get" then
@@ -138,26 +154,31 @@ def aEvStart (float : Bool) (mem : UInt64) (op : String) (e : Ev) : Except Strin
   else if n == "set" || n == "reset" then
     let x : Int := if n == "reset" then 0 else parseIntArg (opArg op)
     let bits := if float then f64OfInt x else u64OfInt x
-    guard (e.k == "S" && ordGe e.ord "Relaxed" && e.a == bits) s!"set: expected store Relaxed {hexStr bits}" (.ok (bits, .inr ""))
+    guard ((e.k == "S" || (e.k == "W" && e.res == mem)) && ordGe e.ord "Relaxed" && e.a == bits)
+      s!"set: expected store Relaxed {hexStr bits} (or swap Relaxed {hexStr bits} -> {hexStr mem})" (.ok (bits, .inr ""))
   else if float then
     match floatDelta op with
     | none => .error s!"unknown op {op}"
     | some _ =>
       guard (e.k == "L" && ordGe e.ord "Acquire" && e.res == mem) s!"float add: expected load Acquire -> {hexStr mem}"
         (.ok (mem, .inl (.cas mem)))
+  else if e.k == "L" then
+    -- the integer add / sub written as a compare-exchange loop: its load
+    guard (ordGe e.ord "Relaxed" && e.res == mem) s!"int {n}: expected load Relaxed -> {hexStr mem}" (.ok (mem, .inl (.cas mem)))
   else
     let want := if isSubOp op then "U" else "A"
     let newv := if isSubOp op then mem - intDelta op else mem + intDelta op
     guard (e.k == want && ordGe e.ord "Relaxed" && e.a == intDelta op && e.res == mem)
-      s!"int {n}: expected {want} Relaxed {hexStr (intDelta op)} -> {hexStr mem}" (.ok (newv, .inr ""))
+      s!"int {n}: expected {want} Relaxed {hexStr (intDelta op)} -> {hexStr mem} (or load Relaxed -> {hexStr mem})" (.ok (newv, .inr ""))
 
-/-- the compare-exchange of a float add whose expected value is `cur` (program counter `cas cur`) -/
+/-- the compare-exchange of an add (float, or integer written as a loop) whose expected value is `cur`
+    (program counter `cas cur`): it must install `casNew float op cur`; a success must have found `cur` in the
+    cell, a failure reports the cell's value and changes nothing -/
 def aEvCas (float : Bool) (mem : UInt64) (op : String) (cur : UInt64) (e : Ev) : Except String (UInt64 × (APc ⊕ String)) :=
-  match floatDelta op with
+  match casNew float op cur with
   | none => .error s!"unknown op {op}"
-  | some d =>
-    let newv := f64Add cur d
-    guard (float && e.k == "C" && ordGe e.ord "Release" && e.a == cur && e.b == newv) s!"float add: expected cas Release {hexStr cur} -> {hexStr newv}" <|
+  | some newv =>
+    guard (e.k == "C" && ordGe e.ord (casOrd float) && e.a == cur && e.b == newv) s!"add: expected cas {casOrd float} {hexStr cur} -> {hexStr newv}" <|
       if e.ok then
         guard (mem == cur && e.res == cur) "cas succeeded although the cell no longer holds the loaded value" (.ok (newv, .inr ""))
       else
